@@ -79,7 +79,8 @@ MANIFEST = {
     'technique': 'runtime monitoring of the real OutgoingRIB + real UPDATE encoder against an independent sequential model: three tables '
     '(intended / reported cache / reference peer table fed with every emitted UPDATE) compared at quiescence; exhaustive enumeration of a '
     'small history space plus seeded random histories; delta-debugged minimal histories name the mechanism; icontract structural '
-    'invariants attached from the harness as early warnings',
+    'invariants attached from the harness as early warnings; the same kind of history played by a real helper process to the real exabgp '
+    'process, peer table / intent / `rib show out` compared',
     'text': 'Operation histories (announce, withdraw, watchdog, refresh, clear, reload, session restart) interleaved with partial consumption '
     'of the update generator are run on the real Adj-RIB-Out. Once the queue has drained the table a reference peer builds from the emitted '
     'UPDATEs, the table ExaBGP reports and the table a sequential model of the history predicts must agree. All histories of length <= 4 over a '
@@ -1252,6 +1253,7 @@ def plan(tier, seed):
     m = 8 if tier == 'quick' else 24
     out += [{'shard': 5000 + i, 'level2': True, 'part': i, 'cases': 4 if tier == 'quick' else 40} for i in range(m)]
     out += [{'shard': 6000 + i, 'nonip': True, 'part': i, 'cases': 150 if tier == 'quick' else 3000} for i in range(2)]
+    out += [{'shard': 7000 + i, 'daemon': True, 'part': i, 'cases': 2 if tier == 'quick' else 10} for i in range(4 if tier == 'quick' else 8)]
     return out
 
 
@@ -1329,6 +1331,117 @@ def l2_case(r: random.Random, idx: int) -> dict:
     bound = 40.0 + (0.15 * (nfill + 8) * resends if cfg.get('rate_limit') else 0.0)
     steps += [['wait_quiet', 2.0, bound], ['snapshot', 'end'], ['mark', 'end']]
     return {'config': cfg, 'steps': steps, 'vtimeout': 400.0 + bound, 'wall': 120.0, 'quantum': 0.0005, 'rx_limit': 70000, 'ops': ops, 'intended': intended, 'nfill': nfill, 'group': group}
+
+
+def run_daemon(desc):
+    """L3: the REAL daemon.  A real helper process plays bursts of announce / withdraw (one operation per prefix and burst,
+    three attribute variants), `rib flush out` and `rib clear out`; between two bursts the observer waits until every command
+    was acknowledged and the scripted peer has been quiet.  At the end: the table the peer built from the UPDATEs, the intent
+    (last operation per prefix) and the prefixes `rib show out` reports are the same"""
+    import json as _json
+    import time
+
+    from vlib import daemon
+
+    res = Result()
+    r = random.Random(desc['seed'] * 32416190071 % (2**31) + desc['part'])
+    prefixes = ['10.%d.0.0/16' % i for i in range(1, 8)]
+    variants = [('192.0.2.1', 10, ''), ('192.0.2.1', 20, ' community [ 65000:1 ]'), ('192.0.2.9', 10, '')]
+    for ci in range(desc['cases']):
+        model = {}
+        script = '#sleep 1.0\n'
+        nb = r.randrange(4, 10)
+        for b in range(nb):
+            x = r.random()
+            if x < 0.12:
+                script += 'rib flush out\n'
+            elif x < 0.2:
+                script += 'rib clear out\n'
+                model.clear()
+            else:
+                for p in r.sample(prefixes, r.randrange(1, len(prefixes))):
+                    if p in model and r.random() < 0.4:
+                        nh, med, comm = model.pop(p)
+                        script += f'peer * withdraw route {p} next-hop {nh}\n'
+                    else:
+                        nh, med, comm = r.choice(variants)
+                        model[p] = (nh, med, comm)
+                        script += f'peer * announce route {p} next-hop {nh} med {med}{comm}\n'
+            script += f'#wait g{b}\n'
+        script += 'rib show out\n'
+        text = 'process player {\n    run @PY@ @DIR@/player.py @DIR@/script @DIR@/replies;\n    encoder json;\n}\n' + exa.neighbor_text(families=[(1, 1)], extra='    adj-rib-out true;\n    group-updates false;\n    api { processes [ player ]; }')
+        d = daemon.Daemon(text, files={'script': script})
+        wit = {'script': script, 'level': 'daemon'}
+        peer = None
+        rx = []
+        try:
+            d.start()
+            peer = d.accept()
+            peer.establish(65001)
+            for b in range(nb):
+                d.wait_lines('replies', lambda ls: any(x.startswith('["wait", "g%d"' % b) for x in ls), timeout=60)
+                rx += peer.drain(quiet=0.3, limit=20)
+                d.release(f'g{b}')
+            d.wait_lines('replies', lambda ls: any(x.startswith('["end"') for x in ls), timeout=60)
+            rx += peer.drain(quiet=0.5, limit=20)
+            replies = [_json.loads(x) for x in d.lines('replies')]
+        except daemon.Inconclusive as e:
+            daemon.skipped(res, str(e))
+            continue
+        finally:
+            try:
+                if peer is not None:
+                    peer.close()
+            except Exception:  # noqa
+                pass
+            d.stop()
+        if any(x[0] == 'timeout' for x in replies) or any(x[0] == 'got' and x[1].strip() == 'error' for x in replies):
+            res.violation('C04/daemon:valid-operation-refused', 'an announce / withdraw / flush / clear of the history was answered error or not at all', dict(wit, replies=[x for x in replies if x[0] != 'sent'][-6:]), 'daemon')
+            continue
+        table = rw.PeerTable()
+        try:
+            for t, body in rx:
+                if t == 2:
+                    dec = rw.dec_update(bytes(body), rw.sess(asn4=True, addpath=()))
+                    if not dec['eor']:
+                        table.apply(dec)
+        except rw.RefError as e:
+            res.violation('C04/daemon:undecodable-update', str(e), wit, 'daemon')
+            continue
+        got = {}
+        for key, v in table.routes.items():
+            attrs = dict(v['attrs'])
+            med = attrs.get(rw.MED)
+            got[key[5]] = (v['nexthop'][0] if v['nexthop'] else None, int(med) if med is not None else None, ' community [ 65000:1 ]' if attrs.get(8) else '')
+        shown = None
+        for k, x in enumerate(replies):
+            if x[0] == 'sent' and x[1] == 'rib show out':
+                shown = []  # one JSON document per route, then the terminal line
+                for y in replies[k + 1 :]:
+                    if y[0] == 'got' and y[1].lstrip().startswith('{'):
+                        try:
+                            doc = _json.loads(y[1])
+                            shown += [rt['prefix'] for nbr in doc.values() for rt in nbr.get('routes', [])]
+                        except (ValueError, KeyError, AttributeError):
+                            shown = None
+                            break
+                    elif y[0] == 'got' and y[1].strip() == 'done':
+                        break
+                shown = sorted(shown) if shown is not None else None
+        wit.update(peer=sorted(got.items()), intent=sorted(model.items()), reported=shown)
+        if got != model:
+            p_ = sorted(set(got) ^ set(model)) or sorted(k for k in got if got[k] != model[k])
+            kind = 'withdrawn-route-resurrected' if p_[0] in got and p_[0] not in model else 'announced-route-missing' if p_[0] not in got else 'stale-values'
+            res.violation(f'C04/daemon:{kind}', f'{p_[0]}: the peer holds {got.get(p_[0])}, the last operation says {model.get(p_[0])}', wit, 'daemon')
+        elif shown is None:
+            res.count('daemon:rib-show-out-not-parsed')
+            res.ok('daemon:history', ('daemon', nb))
+        elif shown != sorted(model):
+            res.violation('C04/daemon:reported-differs', f'`rib show out` reports {shown}, the peer holds {sorted(model)}', wit, 'daemon')
+        else:
+            res.ok('daemon:history', ('daemon', nb))
+            res.ok('daemon:reported')
+    return res
 
 
 def run_nonip(desc):
@@ -1498,6 +1611,8 @@ def run_level2(desc):
 
 
 def run_shard(desc):
+    if desc.get('daemon'):
+        return run_daemon(desc)
     if desc.get('nonip'):
         return run_nonip(desc)
     if desc.get('level2'):
@@ -1629,6 +1744,7 @@ REQUIRED_CLASSES = {
         'L2-op:flush',
         'L2-op:clear',
         'nonip:vpls',
+        'daemon:history',
     ],
 }
 REQUIRED_CLASSES['thorough'] = REQUIRED_CLASSES['quick'] + ['enum:len5']
